@@ -537,13 +537,13 @@ def run(rep, tier, seed, only=None):
     if sub("systematic"):
         work = []
         if thorough:
-            plan = [(0, 2, (0, 1, 2)), (1, 3, (0, 1, 2, 3)), (2, 3, (0, 1, 2, 3)), (3, 2, (0, 1, 2, 3)), (3, 3, (1, 2))]
+            plan = [(0, 2, (0, 1, 2)), (1, 3, (0, 1, 2, 3)), (2, 3, (0, 1, 2)), (3, 2, (0, 1, 2, 3)), (3, 3, (1, 2))]
         else:
             plan = [(0, 2, (0, 1, 2)), (1, 2, (0, 1, 2, 3)), (2, 2, (0, 1, 2, 3)), (2, 3, (1, 2)), (3, 2, (1, 2))]
         rnd = random.Random(seed)
         for n_in, n_g, ar in plan:
             topos = list(circgen.systematic_topologies(n_in, n_g, ar))
-            cap = 100000 if thorough else 1200
+            cap = 12000 if thorough else 1200
             if len(topos) > cap:
                 rep.note(f"systematic n_in={n_in} n_gates={n_g}: {len(topos)} topologies, seeded sample of {cap} in quick tier")
                 topos = rnd.sample(topos, cap)
